@@ -16,7 +16,7 @@ From Coq Require Import List NArith ZArith Bool Lia Permutation.
 From Coq Require Import ZifyBool ZifyN ZifyNat.
 From Verif Require Import Lib.Base Model.C15_Sync Proofs.C15 Proofs.C15_Fire.
 From Verif Require Model.C03_ChainTime Model.C03_Controller Model.C03_Spec.
-From Verif Require Proofs.C03_Table Proofs.C03_SyncStart.
+From Verif Require Proofs.C03_Table Proofs.C03_Sched Proofs.C03_Hist Proofs.C03_More Proofs.C03_SyncStart.
 Import ListNotations.
 Local Open Scope N_scope.
 
@@ -25,6 +25,9 @@ Module C3 := Verif.Model.C03_Controller.
 Module S3 := Verif.Model.C03_Spec.
 Module T3 := Verif.Proofs.C03_Table.
 Module SS3 := Verif.Proofs.C03_SyncStart.
+Module P3 := Verif.Proofs.C03_Sched.
+Module H3 := Verif.Proofs.C03_Hist.
+Module M3 := Verif.Proofs.C03_More.
 
 (* ============================================================================================ *)
 (* 0. The relation between the parameters.                                                      *)
@@ -624,4 +627,118 @@ Lemma nothing_without_C03_job : forall p c ae i e f,
 Proof.
   intros p c ae i e f Hm He Ha Hjob. unfold fire_scheduled.
   rewrite (has_prepare_is_texists p c ae i e (f_slot f) Hm He Ha), Hjob. reflexivity.
+Qed.
+
+(* ============================================================================================ *)
+(* 7. From C03's start-up to C15's per-slot chain.                                              *)
+
+(* on any table that does not list the name: the job [sched_sync] adds for a slot of C15's list is
+   the image of C15's prepare job for that slot (C03's [sched_sync_exact] read in C15's terms) *)
+Lemma sched_sync_tget_new : forall p c ae i e t s,
+  params_match p c ae -> env_match p i e -> si_accts i <> None ->
+  S3.sync_active c ae (si_cur i) e (si_epoch i) = true ->
+  C3.tget t (C3.JSync s) = None ->
+  In s (window_slots true p (si_epoch i) (si_cur i) (si_notcur i)) ->
+  C3.tget (C3.sched_sync c ae (si_cur i) e (si_epoch i) (si_notcur i) t) (C3.JSync s) =
+  Some (sync_job_of c i (JPrepare, s, prepare_time p s)).
+Proof.
+  intros p c ae i e t s Hm He Ha Hact Hnone Hin.
+  rewrite P3.sched_sync_exact. unfold S3.spec_sched_sync. rewrite Hnone.
+  unfold S3.sync_wanted. rewrite Hact. rewrite (window_agrees p c ae _ _ Hm).
+  unfold window_slots in Hin. apply filter_In in Hin. destruct Hin as [Hr Hf]. apply range_In in Hr.
+  replace (w_first (window_of true p (si_epoch i) (si_cur i)) <=? s) with true
+    by (symmetry; apply N.leb_le; lia).
+  replace (s <=? w_last (window_of true p (si_epoch i) (si_cur i))) with true
+    by (symmetry; apply N.leb_le; lia).
+  rewrite Hf. cbn [andb]. f_equal.
+  destruct He as [_ Hd]. destruct Hm as [_ Hp _]. rewrite <- Hp, Hd.
+  unfold S3.sync_job, sync_job_of, sync_name. cbn [fst snd]. rewrite payload_agrees. reflexivity.
+Qed.
+
+(* the window of the period the clock is in, for a chain at or past the fork *)
+Lemma current_period_spec : forall p c ae cur,
+  params_match p c ae -> chain_ok p -> cur < two64 ->
+  (cur / spe p / epp p + 1) * epp p * spe p < two64 -> ae <= cur / spe p ->
+  let this := C3.feosp c ae (C3.cur_epoch c cur / C3.c_period c) in
+  in_range p this cur /\ spec_first p this cur = cur
+  /\ spec_last p this = (cur / spe p / epp p + 1) * epp p * spe p - 2.
+Proof.
+  intros p c ae cur Hm Hok Hc HP Hae this.
+  pose proof Hm as [Hspe Hepp Hfork]. destruct Hok as (Hs0 & He0 & H2).
+  set (ce := cur / spe p) in *. set (P := ce / epp p) in *.
+  assert (Hce : ce * spe p <= cur) by (apply div_mul_le; exact Hs0).
+  assert (HPlo : P * epp p <= ce) by (apply div_mul_le; exact He0).
+  assert (HPhi : ce < (P + 1) * epp p).
+  { unfold P. pose proof (N.mul_succ_div_gt ce (epp p)). lia. }
+  assert (Hthis : this = N.max (P * epp p) ae).
+  { unfold this, C3.feosp, C3.cur_epoch, mul64. rewrite <- Hspe, <- Hepp. fold ce. fold P.
+    rewrite wrap64_small by nia.
+    destruct (N.ltb_spec (P * epp p) ae); lia. }
+  assert (Hq : this / epp p = P).
+  { symmetry. apply (N.div_unique this (epp p) P (this - P * epp p)); lia. }
+  split; [|split].
+  - unfold in_range. rewrite Hq, Hfork. repeat split; [exact Hc | nia | exact HP].
+  - unfold spec_first, period_start, period_first_epoch. rewrite Hq, Hfork. nia.
+  - unfold spec_last, period_end, period_next_epoch. rewrite Hq, Hfork. nia.
+Qed.
+
+Lemma active_past_fork : forall p c ae cur e ep,
+  params_match p c ae -> S3.sync_active c ae cur e ep = true -> ae <= cur / spe p.
+Proof.
+  intros p c ae cur e ep [Hspe _ _] Ha.
+  unfold S3.sync_active in Ha. destruct (C3.sync_window c ae cur ep) as [[fe fs] ls].
+  apply andb_true_iff in Ha. destruct Ha as [Ha _]. apply andb_true_iff in Ha. destruct Ha as [_ Ha].
+  unfold C3.cur_epoch in Ha. rewrite <- Hspe in Ha.
+  destruct (N.ltb_spec (cur / spe p) ae); [discriminate | assumption].
+Qed.
+
+(* C03's (re)start, then C15's chain.  [i] is C15's reading of the call [start] makes for the current
+   period: same epoch argument, same clock, notCurrentSlot, the duties answer the environment holds
+   for that period.  For every later slot of the current period except its last:
+   - the table after the start holds, under the name JSync s, exactly the image of C15's prepare job
+     for s, for C15's members (whatever else [start] scheduled);
+   - when that job and its successors run, the conclusion of C15_message_every_slot holds. *)
+Lemma restart_then_message : forall shadowed p c st ae i f r,
+  C3.altair_details shadowed c = (true, ae) -> params_match p c ae ->
+  let cur := C3.st_cur st in
+  let P := cur / spe p / epp p in
+  let this := C3.feosp c ae (C3.cur_epoch c cur / C3.c_period c) in
+  env_match p i (C3.st_env st) -> si_epoch i = this -> si_cur i = cur -> si_notcur i = true ->
+  si_accts i <> None ->
+  chain_ok p -> cur < two64 -> (P + 1) * epp p * spe p < two64 ->
+  S3.sync_active c ae cur (C3.st_env st) this = true ->
+  cur < f_slot f <= (P + 1) * epp p * spe p - 2 ->
+  f_root f = Some r -> f_sel_err f = false -> f_root_err f = false ->
+  C3.tget (C3.st_jobs (C3.start shadowed c st)) (C3.JSync (f_slot f)) =
+    Some (sync_job_of c i (JPrepare, f_slot f, prepare_time p (f_slot f)))
+  /\ let out := fire_scheduled p i f in
+     (forall s' r' v x,
+        In (s', r', v, x) (opt_list (o_submitted out)) <->
+        s' = f_slot f /\ r' = r /\ has_duty i v /\ holds_account i v /\ ~ In v (f_root_zero f)
+        /\ x = SgRoot v (f_slot f / spe p) r)
+     /\ NoDup (map msg_validator (opt_list (o_submitted out)))
+     /\ o_msg_job out = Some (message_time p (f_slot f)).
+Proof.
+  intros shadowed p c st ae i f r Hd Hm cur P this He Hep Hcur Hnc Hacc Hok Hc HP Hact Hs Hroot Hsel Hrerr.
+  pose proof (active_past_fork p c ae cur _ _ Hm Hact) as Hae.
+  destruct (current_period_spec p c ae cur Hm Hok Hc HP Hae) as (Hr & Hfirst & Hlast).
+  fold this in Hr, Hfirst, Hlast. fold P in Hlast.
+  assert (Hwin : in_window p i (f_slot f)).
+  { unfold in_window. rewrite Hep, Hcur, Hfirst, Hlast. split; [lia | intros _; lia]. }
+  assert (Hin : In (f_slot f) (window_slots true p (si_epoch i) (si_cur i) (si_notcur i))).
+  { apply window_slots_spec; [exact Hok | rewrite Hep, Hcur; exact Hr | exact Hwin]. }
+  assert (Hact' : S3.sync_active c ae (si_cur i) (C3.st_env st) (si_epoch i) = true)
+    by (rewrite Hep, Hcur; exact Hact).
+  split.
+  - unfold C3.start. fold cur. rewrite Hd. cbn [C3.st_jobs].
+    apply M3.sched_att_keeps. cbv zeta. fold this.
+    match goal with |- C3.tget (if ?b then _ else _) _ = _ => destruct b end;
+      [apply M3.sched_sync_keeps|];
+      rewrite <- Hep, <- Hcur, <- Hnc;
+      apply (sched_sync_tget_new p c ae i (C3.st_env st) _ (f_slot f) Hm He Hacc Hact');
+      try exact Hin;
+      (rewrite H3.sched_att_frame by reflexivity; rewrite H3.sched_prop_frame by reflexivity; reflexivity).
+  - apply (ready_iff_active p c ae i _ Hm He Hacc) in Hact'.
+    apply (message_every_slot p i f r Hok); try assumption.
+    rewrite Hep, Hcur. exact Hr.
 Qed.
